@@ -114,6 +114,18 @@ class C12(Check):
                 cs.append({"cmds": list(t), "frag": [1, 2, 1], "bound": 1 if len(set(t)) < 3 else 2})
         else:
             cs.append({"cmds": ["state", "heartbeat", "pubkey"], "frag": [1, 1, 1], "bound": 1})
+        # the other dongle classes (their connect() runs before the server listens), clients that
+        # pause in the middle of their line
+        for plat in ("tcp", "sgx"):
+            for a, b in ((("heartbeat", "state"), ("pubkey", "hash")) if not self.thorough else
+                         (("heartbeat", "state"), ("pubkey", "hash"), ("sign", "advance"), ("state", "state"))):
+                cs.append({"cmds": [a, b], "frag": [2, 2], "bound": self.bound - 1, "platform": plat})
+        # a third client whose end is reset (or closed) in the middle of its line while the others wait
+        for a, b in ((("sign", "state"), ("heartbeat", "pubkey")) if not self.thorough else
+                     (("sign", "state"), ("heartbeat", "pubkey"), ("advance", "hash"), ("state", "state"))):
+            for gone in ("reset", "hangup"):
+                cs.append({"cmds": [a, b], "frag": [1, 1], "bound": self.bound - 1,
+                           "gone": gone})
         return cs
 
     def driver(self, case):
@@ -124,7 +136,7 @@ class C12(Check):
             dev = PowHsm(seed=b"c12")
             dev.advance_final = "partial"
             w = World(dev)
-            proto = harness.make_protocol(w)
+            proto = harness.make_protocol(w, platform=case.get("platform", "ledger"))
             frags = []
             for i, line in enumerate(lines):
                 if case["frag"][i] == 1:
@@ -132,6 +144,9 @@ class C12(Check):
                 else:
                     cut = len(line) // 2
                     frags.append([line[:cut], line[cut:]])
+            if case.get("gone"):
+                half = lines[0][:len(lines[0]) // 2]
+                frags.append([half, vnet.RESET if case["gone"] == "reset" else vnet.HANGUP])
             net, info, crashed = vserver.run_server(proto, w, frags, ctx)
             return net, w, info, crashed
         return run
@@ -185,6 +200,8 @@ class C12(Check):
         if info["early_shutdown"]:
             viol("server-stopped-accepting", {}, "server still accepting when all clients are done")
         for i, cl in enumerate(net.clients):
+            if i >= len(cmds):
+                continue          # the client that went away in the middle of its line: no reply owed
             want = self.solo[(i, cmds[i])][0]
             got = cl.conn.out if cl.conn is not None else None
             if got != want:
